@@ -302,6 +302,7 @@ impl C12 {
         let mut refused = 0u32;
         // the last invoice proposal: (invoice, amount, already counted as approved)
         let mut last_inv: Option<(Invoice, u64, bool)> = None;
+        let mut counted_invoices: std::collections::BTreeSet<[u8; 32]> = Default::default();
         let mut restart_between = false;
         let mut restarted_since_approval = false;
         let mut shape = vec![];
@@ -315,9 +316,19 @@ impl C12 {
                     let a = amt.msat(limit);
                     uniq += 1;
                     let is_inv = matches!(ev, NodeEv::Invoice { .. });
+                    // an invoice that is already on record is answered from the record: not a new approval
+                    let mut already_recorded = false;
+                    let mut inv_id: Option<[u8; 32]> = None;
                     let res: Out<bool> = if is_inv {
                         let Some(inv) = make_invoice(*h, a.min(u64::MAX / 4), Duration::from_secs(t)) else { continue };
-                        last_inv = Some((inv.clone(), a.min(u64::MAX / 4), false));
+                        {
+                            // by the ledger's own record (not the signer's): an invoice counted as
+                            // approved before is answered from the signer's record
+                            use lightning_signer::invoice::InvoiceAttributes;
+                            inv_id = Some(inv.invoice_hash());
+                            already_recorded = counted_invoices.contains(&inv.invoice_hash());
+                        }
+                        last_inv = Some((inv.clone(), a.min(u64::MAX / 4), already_recorded));
                         let node = w.node.clone();
                         call(move || node.add_invoice(inv))
                     } else {
@@ -327,6 +338,10 @@ impl C12 {
                         call(move || node.add_keysend(payee, ph, a))
                     };
                     let a = if is_inv { a.min(u64::MAX / 4) } else { a };
+                    if already_recorded && matches!(res, Out::Ok(true)) {
+                        st.class("invoice_already_on_record(not a new approval)");
+                        continue;
+                    }
                     let approved = matches!(res, Out::Ok(true));
                     shape.push((0u8, approved));
                     if trace.len() < 40 {
@@ -339,6 +354,9 @@ impl C12 {
                     if approved && is_inv {
                         if let Some(l) = last_inv.as_mut() {
                             l.2 = true;
+                        }
+                        if let Some(id) = inv_id {
+                            counted_invoices.insert(id);
                         }
                     }
                     if approved {
@@ -417,6 +435,10 @@ impl C12 {
                     // not a new approval; a refused one that is now approved counts now
                     if approved && !counted {
                         last_inv.as_mut().unwrap().2 = true;
+                        {
+                            use lightning_signer::invoice::InvoiceAttributes;
+                            counted_invoices.insert(last_inv.as_ref().unwrap().0.invoice_hash());
+                        }
                         shape.push((2u8, true));
                         if let Err(sum) = pay.approve(t, a) {
                             let site = if w.restarts > 0 { "C12:node:payment-window-exceeded-after-restart" } else { "C12:node:payment-window-exceeded" };
